@@ -76,7 +76,12 @@ func init() {
 			return run(s)
 		})
 		inline := guard(func() string {
-			s := jschema.New("root", string(ex)+" // {enum: "+string(rule)+"}")
+			text := string(ex) + " // {enum: " + string(rule) + "}"
+			if len(a) > 2 && a[2] == "block" {
+				// a rule text of several lines (with // comments) can only stand in a block annotation
+				text = string(ex) + " /* {enum: " + string(rule) + "} */"
+			}
+			s := jschema.New("root", text)
 			return run(s)
 		})
 		return "named=" + named + " inline=" + inline
